@@ -7,7 +7,6 @@
     reader entry points, dedicated class or the library's assert / raise Exception(message) convention at the semantic stage.
 """
 import os
-import io
 import copy
 import zlib
 import traceback
